@@ -749,3 +749,18 @@ Proof.
   rewrite H2 in N1. injection N1 as <-.
   exists body, le, nlb, lines. repeat (split; [assumption|]). exact H8.
 Qed.
+
+(* key lemma (a) at bytes, in the form quoted by props/C01.v *)
+Lemma split_indent_commute :
+  forall (nl d : bytes) (k : nat) (lines : list bytes),
+    nl <> [] -> unbordered nl -> ~ In x20 nl -> d <> [] -> bends nl d = true ->
+    split_lines d nl true = Ok lines ->
+    split_lines (concat (map (app (repeat_b x20 k)) lines)) nl true = Ok (map (app (repeat_b x20 k)) lines) /\
+    lines <> [] /\ concat lines = d.
+Proof.
+  intros nl d k lines Hn Hu Hs Hd He Hl.
+  assert (Hsp : forall x, In x (repeat_b x20 k) -> ~ In x nl).
+  { intros x Hx Hi. apply in_repeat_b in Hx. subst x. exact (Hs Hi). }
+  destruct (split_lines_indented byte_eqb byte_eqb_spec nl d (repeat_b x20 k) lines Hn Hu Hd He Hsp Hl) as [A [B0 [C _]]].
+  auto.
+Qed.
